@@ -2,7 +2,7 @@
    Statements only; proofs are in C02/Proofs*.v. *)
 From Coq Require Import List Arith QArith Qminmax Lqa Lia Bool.
 From AIT Require Import Base.Qx Base.Mdp Base.MdpExec C02.Model C02.Spec C02.ProofsVec C02.ProofsCross
-  C02.ProofsSched C02.ProofsProj C02.ProofsIP C02.ProofsPrunePw C02.ProofsEV C02.ProofsRTBSS.
+  C02.ProofsSched C02.ProofsProj C02.ProofsIP C02.ProofsPrunePw C02.ProofsEV C02.ProofsRTBSS C02.ProofsSchedAll.
 Import ListNotations.
 Local Open Scope Q_scope.
 
@@ -16,22 +16,23 @@ Print Assumptions cross_envelope.
    envelope on the non-negative orthant (what C12 establishes for the library's pruners), every
    POMDP, horizon and (unnormalised) belief: the value surface equals exhaustive expectimax.
    [obs_clean]: observation probabilities are 0 or above the library tolerance (the property's
-   separation assumption); [ops_ok]: the merge schedule for nO observations is sound (below). *)
+   separation assumption).  The merge schedule is covered for EVERY number of observations by
+   ip_schedule_covers below. *)
 Theorem ip_value : forall (prune : vlist -> vlist),
   (forall l e, In e (prune l) -> In e l) ->
   (forall l, l <> [] -> prune l <> []) ->
   (forall S l b, l <> [] -> wfl S l -> nonneg b -> length b = S -> vbest (prune l) b == vbest l b) ->
-  forall m h b, wf_pomdp m -> obs_clean m -> ops_ok (nO m) = true ->
+  forall m h b, wf_pomdp m -> obs_clean m ->
     nonneg b -> length b = nS (pm m) ->
     vbest (last (ip_run prune m h) []) b == EV m h b.
 Proof.
-  intros prune H1 H2 H3 m h b Hwf Hc Hs Hb Hl.
-  exact (proj2 (proj2 (ip_run_value prune H1 H2 H3 m Hwf Hc Hs h)) b Hb Hl).
+  intros prune H1 H2 H3 m h b Hwf Hc Hb Hl.
+  exact (proj2 (proj2 (ip_run_value prune H1 H2 H3 m Hwf Hc (ops_ok_all (nO m) (HO m Hwf)) h)) b Hb Hl).
 Qed.
 Print Assumptions ip_value.
 
 (* The same for the executable instance that the correspondence check runs (pointwise pruning). *)
-Theorem ip_value_pw : forall m h b, wf_pomdp m -> obs_clean m -> ops_ok (nO m) = true ->
+Theorem ip_value_pw : forall m h b, wf_pomdp m -> obs_clean m ->
   nonneg b -> length b = nS (pm m) ->
   vbest (last (ip_run prune_pw m h) []) b == EV m h b.
 Proof. exact (ip_value prune_pw prune_pw_sub prune_pw_ne prune_pw_env). Qed.
@@ -48,15 +49,12 @@ Theorem ip_schedule_sound : forall (prune : vlist -> vlist) S a b,
 Proof. exact merge_all_ok. Qed.
 Print Assumptions ip_schedule_sound.
 
-(* The integer schedule of IncrementalPruning::operator() is sound for every observation count
-   up to 256 (exhaustive evaluation inside the kernel; the general statement for all O is the
-   stretch theorem ip_schedule_covers and is not proved here — hence "_partial"). *)
-Theorem ip_schedule_covers_partial : forall n, (1 <= n <= 256)%nat -> ops_ok n = true.
-Proof.
-  assert (H : forallb ops_ok (seq 1 256) = true) by (vm_compute; reflexivity).
-  intros n Hn. rewrite forallb_forall in H. apply H. apply in_seq. lia.
-Qed.
-Print Assumptions ip_schedule_covers_partial.
+(* The integer schedule of IncrementalPruning::operator() (front/back/stepsize/diff/elements with
+   its alternating forward and backward passes) is sound for EVERY number of observations: it merges
+   only adjacent intervals, in the right link order, and ends with the full interval [0,O). *)
+Theorem ip_schedule_covers : forall n, (1 <= n)%nat -> ops_ok n = true.
+Proof. exact ops_ok_all. Qed.
+Print Assumptions ip_schedule_covers.
 
 (* RTBSS (branch and bound with the repaired bound discount * max(maxR,0) * horizon): for every
    POMDP, every valid reward bound maxR (ANY sign), every horizon and normalised belief, the value
